@@ -83,6 +83,12 @@ Proof. exact StreamIdProofs.open_ok03. Qed.
 Theorem C03_st_judge_run : forall case, StreamId.judge03 case (StreamId.run case) = true.
 Proof. exact StreamIdProofs.judge03_run. Qed.
 
+(* the bound on packet capacities used by the drivers, by the generator and as hypothesis of
+   C03_packet_within_limits is one constant: the value transmit_interval clamps capacities to
+   (read from transmissions.rs: u16::MAX), plus one *)
+Theorem C03_cap_bound : cap_bound = Gen_C12.transmit_capacity_clamp + 1 /\ cap_bound = 65536.
+Proof. split; reflexivity. Qed.
+
 Theorem C03_stream_id_step_is_4 : Gen_C12.stream_id_step = 4.
 Proof. reflexivity. Qed.
 
@@ -103,4 +109,5 @@ Print Assumptions C03_ss_judge_run.
 Print Assumptions C03_reset_final_size_within_stream_limit_refuted.
 Print Assumptions C03_streams_opened_within_limit.
 Print Assumptions C03_st_judge_run.
+Print Assumptions C03_cap_bound.
 Print Assumptions C03_stream_id_step_is_4.
